@@ -76,6 +76,11 @@ func (w *respWriter) Write(b []byte) (int, error) {
 }
 func (w *respWriter) Flush() {}
 
+// maxSpin: scheduler grants without the simulated clock advancing before a run counts as livelocked. The reader
+// legitimately streams up to a million matrix points per request without touching a timer (a few grants per
+// point), so the budget has to sit above that.
+const maxSpin = 20_000_000
+
 type runState struct {
 	s    Scenario
 	mu   sync.Mutex
@@ -126,6 +131,7 @@ func (st *runState) body(ri *simcheck.RunInfo) {
 	t0 := time.Now()
 	sim := simrt.New(s.Sched, s.SchedSeed)
 	sim.SetPreempt(s.Preempt, s.SchedSeed)
+	sim.MaxSpin = maxSpin
 	defer sim.Close()
 	// the scripted result sets, in request order per client, are looked up by the driver per statement;
 	// each request installs its own script just before it runs (requests of one client are sequential,
